@@ -64,6 +64,7 @@ def jobs(tier, seed):
                                 "density": density, "maxdepth": maxdepth if density == "binomial" else maxdepth - 1, "cost": major * maxdepth ** 2})
     out.append({"name": "copy-number-validation", "kind": "cnv", "cost": 1})
     out.append({"name": "grid-and-clusters", "kind": "grid", "cost": 10})
+    out.append({"name": "loader-table-to-data-points", "kind": "loader", "cost": 20})
     base = {"kind": "pmf", "major": 2, "minor": 1, "normal": 2, "maxdepth": 2}
     out.append({"name": "canary-variant_population_weight", "canary": "variant_population_weight", **base, "density": "binomial", "cost": 5})
     out.append({"name": "canary-beta_binomial_b_parameter", "canary": "beta_binomial_b_parameter", **base, "density": "beta-binomial", "cost": 5})
@@ -260,6 +261,63 @@ def _work_grid(res):
     return funcs
 
 
+def _work_loader(res):
+    """_create_loaded_pyclone_data_dict on a real DataFrame whose error-rate and tumour-content columns hold solver
+    variables (one per row): every row's grid must be the model under that row's own values, whatever the row order."""
+    import pandas as pd
+    import phyclone.data.pyclone as pc
+    _, _, f, s = _symbols()
+    rows = []
+    syms = {}
+    spec_rows = [("mB", "s2", 1, 2, 2, 1, 2), ("mA", "s1", 2, 1, 2, 1, 2), ("mB", "s1", 0, 3, 2, 1, 2), ("mA", "s2", 1, 1, 2, 1, 2)]   # shuffled on purpose
+    for m, smp, ref, alt, maj, mi, no in spec_rows:
+        e, t = V.var(f"eps_{m}_{smp}"), V.var(f"t_{m}_{smp}")
+        CTX.assume(e.lt(V(Fraction(1, 2))))
+        CTX.assume(t.le(V(1)))
+        syms[(m, smp)] = (e, t, ref, alt, maj, mi, no)
+        rows.append({"mutation_id": m, "sample_id": smp, "ref_counts": ref, "alt_counts": alt, "major_cn": maj, "minor_cn": mi, "normal_cn": no,
+                     "error_rate": Lin(e), "tumour_content": Lin(t)})
+    samples = ["s1", "s2"]
+    G = 3
+
+    def one(density):
+        df = pd.DataFrame(rows)
+        data = pc._create_loaded_pyclone_data_dict(df, samples)
+        claims = [("loader-order", _claim(list(data.keys()) == ["mA", "mB"]))]
+        for m, dp in data.items():
+            grid = dp.to_likelihood_grid(density, G, precision=Lin(s))
+            for si, smp in enumerate(samples):
+                e, t, ref, alt, maj, mi, no = syms[(m, smp)]
+                for i in range(G):
+                    comps, ng = model_terms(maj, mi, no, ref + alt, alt, t, V(Fraction(i, G - 1)), e, s, density)
+                    g = grid[si, i]
+                    g = g.e if isinstance(g, Log) else V(1)
+                    claims.append(("loader-grid", _claim(g.eq(_mix(comps, ng)))))
+        return claims
+
+    def run():
+        for density in ("binomial", "beta-binomial"):
+            for pth in CTX.explore(lambda: one(density), catch=(Exception,)):
+                res["paths_total"] += 1
+                if pth.exc is not None:
+                    res["obligations"] += 1
+                    res["cex"].append({"kind": "exception", "detail": repr(pth.exc), "values": {}})
+                    return
+                for what, claim in pth.result:
+                    res["obligations"] += 1
+                    r, model = CTX.prove(claim, extra=pth.pc, use_pc=False)
+                    if r == "unsat":
+                        res["discharged"] += 1
+                    elif r == "sat":
+                        res["cex"].append({"kind": what, "values": model_values(model) if model else {}})
+                        return
+                    else:
+                        raise Inconclusive(what)
+    _, funcs = patcher.entered_functions(run)
+    res["sample"] = {"loader": "2 mutations x 2 samples in shuffled row order, same copy-number state, one symbolic error rate and tumour content per row"}
+    return funcs
+
+
 def work(job):
     res = {"obligations": 0, "discharged": 0, "cex": [], "nontrivial": True, "paths_total": 0}
     CTX.new_session()
@@ -269,6 +327,8 @@ def work(job):
             funcs = _work_pmf(job, res)
         elif job["kind"] == "cnv":
             funcs = _work_cnv(res)
+        elif job["kind"] == "loader":
+            funcs = _work_loader(res)
         else:
             funcs = _work_grid(res)
     finally:
@@ -318,6 +378,34 @@ def replay(case):
                 worst = max(worst, abs(got - model(maj, mi, no, n, k, f, density)))
                 tot += got
             worst = max(worst, abs(tot - 1.0))
+        return worst > 1e-9, {"max_abs_diff": worst}
+    if job["kind"] == "loader":
+        import pandas as pd
+        spec_rows = [("mB", "s2", 1, 2, 2, 1, 2), ("mA", "s1", 2, 1, 2, 1, 2), ("mB", "s1", 0, 3, 2, 1, 2), ("mA", "s2", 1, 1, 2, 1, 2)]
+        rows, par = [], {}
+        for j, (m, smp, ref, alt, maj, mi, no) in enumerate(spec_rows):
+            e = vals.get(f"eps_{m}_{smp}", 0.01 * (j + 1))
+            tt = vals.get(f"t_{m}_{smp}", 0.5 + 0.1 * j)
+            par[(m, smp)] = (e, tt, ref, alt, maj, mi, no)
+            rows.append({"mutation_id": m, "sample_id": smp, "ref_counts": ref, "alt_counts": alt, "major_cn": maj, "minor_cn": mi, "normal_cn": no,
+                         "error_rate": e, "tumour_content": tt})
+        worst = 0.0
+        for density in ("binomial", "beta-binomial"):
+            data = pc._create_loaded_pyclone_data_dict(pd.DataFrame(rows), ["s1", "s2"])
+            if list(data.keys()) != ["mA", "mB"]:
+                return True, {"order": list(data.keys())}
+            for m, dp in data.items():
+                grid = dp.to_likelihood_grid(density, 3, precision=s)
+                for si, smp in enumerate(["s1", "s2"]):
+                    e, tt, ref, alt, maj, mi, no = par[(m, smp)]
+                    for i in range(3):
+                        tot = 0.0
+                        gs = spec.genotypes(maj, mi, no)
+                        for cn, x in gs:
+                            num, den = spec.expected_vaf(cn, x, tt, i / 2, e, min, 1.0)
+                            r, d = (spec.pmf_binomial(ref + alt, alt, num, den, 1.0) if density == "binomial" else spec.pmf_beta_binomial(ref + alt, alt, num, den, s, 1.0))
+                            tot += r / d
+                        worst = max(worst, abs(math.exp(grid[si, i]) - tot / len(gs)))
         return worst > 1e-9, {"max_abs_diff": worst}
     # grid / clusters
     counts = {"mA": [(2, 1, (2, 1, 2)), (0, 2, (1, 1, 2))], "mB": [(1, 1, (1, 0, 2)), (3, 0, (2, 0, 1))], "mC": [(0, 0, (1, 1, 2)), (1, 2, (2, 2, 2))]}
